@@ -257,6 +257,7 @@ func c15(p *core.Program, r *core.Report) {
 	}
 	strideRule(p, r, "stride-discipline", []strideTarget{{"xyz", "*", "xyz"}, {"xy", "DistanceFromPointToLine", "xy"}, {"xy", "PerpendicularDistanceFromPointToLine", "xy"}, {"xy", "DistanceFromPointToLineString", "xy"}, {"xy", "DistanceFromLineToLine", "xy"}})
 	footprintRule(p, r, "segment-coverage", [][2]string{{"xy", "DistanceFromPointToLineString"}})
+	denominatorSignRule(p, r, "denominator-sign-known", [][2]string{{"xy", "DistanceFromLineToLine"}, {"xyz", "DistanceLineToLine"}})
 	clampedProjectionRule(p, r, "segment-distance-clamped", [][2]string{{"xy", "DistanceFromPointToLine"}, {"xyz", "DistancePointToLine"}, {"xy", "distanceFromSegmentSquared"}})
 	r.Assume("the distances themselves (accuracy, symmetry, zero on contact) are not decided")
 }
